@@ -408,6 +408,8 @@ class Parser:
                 self.stream.expect("comma")
             arg = self.parse_assign_target(name_only=True)
             arg.set_ctx("param")
+            if any(arg.name == other.name for other in args):
+                self.fail(f"duplicate argument {arg.name!r}", arg.lineno)
             if self.stream.skip_if("assign"):
                 defaults.append(self.parse_expression())
             elif defaults:
@@ -906,6 +908,11 @@ class Parser:
                     # Parsing a kwarg
                     ensure(dyn_kwargs is None)
                     key = self.stream.current.value
+                    if any(key == other.key for other in kwargs):
+                        self.fail(
+                            f"keyword argument {key!r} repeated",
+                            self.stream.current.lineno,
+                        )
                     self.stream.skip(2)
                     value = self.parse_expression()
                     kwargs.append(nodes.Keyword(key, value, lineno=value.lineno))
